@@ -461,12 +461,13 @@ def chunk_width(rep, rule, idx, c, SH=None):
                   f"created with granularity {ir.show(a0) if a0 else None}; expected self.bus.data_width")
 
 
-def reset_discipline(rep, rule, idx, class_specs, allowed=()):
+def reset_discipline(rep, rule, idx, class_specs, allowed=(), allowed_init=()):
     """Every register a property's initial-state clause relies on takes part in the domain reset: no Signal(...) /
     Signal.like(...) created by the given classes passes reset_less (other than a literal False).  `allowed` lists
     (class qual, assigned name) pairs that are reset-less on purpose, with the reason given where the rule is called."""
     import ast as _ast
     allowed = set(allowed)
+    allowed_init = dict(allowed_init)       # (class qual, name) -> accepted init expression (source text)
     for spec in class_specs:
         try:
             cls = idx.find_class(spec)
@@ -497,6 +498,16 @@ def reset_discipline(rep, rule, idx, class_specs, allowed=()):
                                 key = (cls.qual, name)
                                 if name is not None and key not in allowed:
                                     bad.append((f.site, name, _ast.unparse(k.value), call.lineno))
+                            if k.arg in ("init", "reset") and name is not None and fn == "Signal":
+                                txt = _ast.unparse(k.value)
+                                if allowed_init.get((cls.qual, name)) == txt or (isinstance(k.value, _ast.Constant) and k.value.value in (0, False)):
+                                    continue
+                                if isinstance(k.value, _ast.Constant):
+                                    rep.bad(rule, f.site, f"register `{name}` starts at its documented initial value",
+                                            f"created with {k.arg}={txt}: it comes out of reset as {txt}, not 0", line=call.lineno)
+                                else:
+                                    rep.unk(rule, f.site, f"register `{name}` starts at its documented initial value",
+                                            f"created with {k.arg}={txt}, which is not in the table of deliberate initial values")
         seen = set()
         for site, name, val, ln in bad:
             if (site, name) in seen:
